@@ -14,8 +14,19 @@ def sched_knobs(rng, allow_stall=True):
     """Swarm-style per-run scheduler knobs."""
     line_mean = rng.choice([0, 0, 40, 10, 3])
     p_stall = rng.choice([0.0, 0.0, 0.1, 0.3]) if allow_stall else 0.0
-    return {'line_mean': line_mean, 'p_stall': p_stall,
-            'stall_window': rng.choice([0.002, 0.02]) if p_stall else 0.0}
+    k = {'line_mean': line_mean, 'p_stall': p_stall,
+         'stall_window': rng.choice([0.002, 0.02]) if p_stall else 0.0}
+    r = rng.random()
+    if r < 0.2:
+        # priority schedules (PCT): the highest-priority runnable thread always runs, re-decided at every line
+        k['line_mean'] = rng.choice([1, 2])
+        k['pct'] = rng.choice([1, 2, 3])
+        k['pct_horizon'] = rng.choice([2000, 20000, 200000])
+    elif r < 0.35 and line_mean:
+        # thread starvation (only together with line-level pre-emption)
+        k['p_starve'] = rng.choice([0.02, 0.1])
+        k['starve_len'] = rng.choice([30, 200, 1000])
+    return k
 
 
 def make_world(ctx, devices, needs_resending=None, lat=None):
